@@ -561,11 +561,11 @@ func init() {
 	core.Register(&core.Check{
 		ID:    "C20",
 		Level: "exploration",
-		Rule: "documents from the exporter's vocabulary: headings 1-6, paragraphs of 1-4 runs with bold/italic/bold+italic/strike/code-font/bold+strike combinations, Quote and CodeBlock paragraphs (with indentation), bullet list paragraphs, tables of 1-3 x 1-3 cells, empty paragraphs, in any interleaving; every run text is a unique token, in odd cases with Markdown metacharacters (* _ ` | # > [x] ~~ 1. \\ -) around it; export options: GFM or simple tables, setext, bullet marker - * +, emphasis marker * _, wrapping at 10/20/40/80. " +
+		Rule: "documents from the exporter's vocabulary: headings 1-6, paragraphs of 1-4 runs with any of the sixteen bold/italic/strike/code-font combinations, the blank between two runs at the start of the second, the end of the first, both, in a run of its own, around an empty run, or (half of the cases) absent so that the runs touch inside one word, Quote and CodeBlock paragraphs (with indentation), bullet list paragraphs, tables of 1-3 x 1-3 cells, empty paragraphs, in any interleaving; every run text is a unique token, in odd cases with Markdown metacharacters (* _ ` | # > [x] ~~ 1. \\ -) around it; export options: GFM or simple tables, setext, bullet marker - * +, emphasis marker * _, wrapping at 10/20/40/80. " +
 			"Oracle: every token occurs exactly once in the Markdown and the tokens are in body order; formatted runs are enclosed by exactly their markers (independent tokenisation around the token); converting the Markdown back gives every token in a block of the same kind; a second export of the converted document equals the first. Non-trivial: >=3 run texts; distinct = options + Markdown.",
 		Cases:         func(t string) int { return tierN(t, 40000, 1000000) },
 		Run:           c20Case,
-		Assume:        []string{"heading levels 7-9 do not exist in Markdown and are not generated", "blank-line layout and the escaping style of the first export are free as long as the round trip holds"},
+		Assume:        []string{"heading levels 7-9 do not exist in Markdown and are not generated", "blank-line layout and the escaping style of the first export are free as long as the round trip holds", "runs that touch are generated only with a letter or digit on both sides of the boundary", "a rejected case with touching runs is re-run with one touching boundary at a time; the boundary is classified by CommonMark's flanking rules (touchingReason)"},
 		CaseTimeoutS:  60,
 		MinNontrivial: 500,
 	})
